@@ -54,7 +54,7 @@ pub fn run(args: &Args) -> i32 {
     let mut subjects: Vec<Subject> = seeds.iter().map(|s| Subject { name: s.name.clone(), bytes: s.bytes.clone(), init: s.init.clone() }).collect();
     // generated subjects: plain movies (several tracks with interleaved chunks, movie header
     // first or last, every table form) and fragmented movies (whole stream, and segment + init)
-    let ng = args.scale(2_000, 40_000);
+    let ng = args.scale(4_000, 40_000);
     for g in 0..ng {
         let mut rng = Rng::derive(args.seed, 0xC11, g);
         match g % 3 {
